@@ -57,7 +57,8 @@ CLAIMS = {
          "refinement proof (marker scan = signals) by mutual induction + correspondence + specification oracle"),
  "C04": ("proof", "Frame theorem by induction over the evaluator (a statement changes at most the innermost frame; @if restores the chain), "
          "type stability and the reserved name over any assignment sequence, and - through the refinement theorem - the model's scope chain "
-         "after any statement is the specification's (assignment binds in the innermost block, one child scope per @if/loop discarded at "
+         "after any statement is the specification's; every entry of every accepted data map is read through any nesting of scopes that do "
+         "not bind its name and after any assignments made in scopes that have ended (C04_data_entry_read_everywhere) (assignment binds in the innermost block, one child scope per @if/loop discarded at "
          "@end, env_set = the specification's assign); from the source bytes of templates with assignments at any nesting position to "
          "the specification's scope chain (C04_from_source_bytes_to_output). Tied by correspondence.", "8.C04",
          "invariant by induction over evaluator fuel and assignment sequences + refinement to the scoped big-step specification"),
@@ -157,7 +158,8 @@ CLAIMS = {
  "C12": ("proof", "Theorems by induction over the abstract Go value (through slices, maps, structs, pointers): the data conversion succeeds "
          "exactly when no unsupported kind occurs at any depth outside unexported fields; scalars keep their value (integers as int64), "
          "pointers are transparent, slice elements correspond position by position, map entries key by key, exported struct fields name by "
-         "name and through the lower-cased first letter, unexported fields are unreachable; a data entry is bound under its key. The model "
+         "name and through the lower-cased first letter, unexported fields are unreachable; for every accepted data map (distinct keys, any "
+         "presentation order) every entry is bound in the one root scope to its conversion and no other name is bound. The model "
          "is tied to NativeToObject/EnvFromMap/evalObjectIndexExp by type-directed Go values built by reflection; caller-data immutability "
          "is observed by deep comparison, not proved.", "8.C12",
          "structural induction over Go values (custom nested induction principle) + correspondence on reflected data"),
